@@ -141,6 +141,8 @@ impl Writer {
         apply_position_restrictions(&mut group);
 
         let mut included_files = HashSet::<String>::new();
+        // a line comment extends to the end of its line, so whatever is written next must start on a new line
+        let mut after_line_comment = false;
 
         for item in group {
             match item {
@@ -153,8 +155,14 @@ impl Writer {
                     item_text,
                     ..
                 } => {
+                    let start_offset = if after_line_comment && start_offset == 0 {
+                        1
+                    } else {
+                        start_offset
+                    };
                     if let Some(incname) = incfile {
                         if !included_files.contains(incname) {
+                            after_line_comment = false;
                             self.add_whitespace(start_offset);
                             self.outstring.push_str("/include \"");
                             self.outstring.push_str(incname);
@@ -163,6 +171,7 @@ impl Writer {
                             included_files.insert(incname.to_owned());
                         }
                     } else {
+                        after_line_comment = false;
                         self.add_whitespace(start_offset);
                         if is_block {
                             self.outstring.push_str("/begin ");
@@ -183,12 +192,18 @@ impl Writer {
                     ..
                 } => {
                     if !is_included {
+                        let start_offset = if after_line_comment && start_offset == 0 {
+                            1
+                        } else {
+                            start_offset
+                        };
                         // don't use self.add_whitespace() here, because comments don't follow indentation rules
                         // if the comment was indented when it was parsed, then the indentation is preserved in the comment
                         for _ in 0..start_offset {
                             self.outstring.push('\n');
                         }
                         self.outstring.push_str(comment);
+                        after_line_comment = comment.trim_start().starts_with("//");
                     }
                 }
             }
